@@ -6,6 +6,7 @@ import CkbVerif.Lemmas.MMRSize
 import CkbVerif.Lemmas.MMRCommit
 import CkbVerif.Lemmas.MMRSound
 import CkbVerif.Lemmas.MMRBatch
+import CkbVerif.Lemmas.MMRCompleteMain
 /-!
 # C19 — chain-root commitments, proofs and filter hashes match the chain they describe
 
@@ -257,8 +258,7 @@ bind a value to its position (corpus/C19/mmr-position-not-bound.ops: with three 
 proof for leaf 2 also "proves" `(position of leaf 1, digest of block 2)`); it is the block number
 inside the digest that is bound.
 
-Not proved: `proof_complete` (`genProof` then `verify` succeeds for every non-empty set of leaf
-positions of the MMR) — tied by correspondence and by the harness's completeness oracle only. -/
+The converse direction (every genuine proof is accepted) is `proof_complete` below. -/
 theorem proof_sound [DecidableEq α] (merge : α → α → α) (lo hi : α → Nat) (hR : RangeAlg merge lo hi)
     (L : List α) (hL : ChainLeaves merge lo hi L) (root : α)
     (hroot : bagD merge (specD merge L) = some root)
@@ -316,6 +316,98 @@ example :
     (m.bind fun m => (genProof Term.node m [leafIndexToPos 1]).bind fun p =>
       (getRoot Term.node m).bind fun r => verify Term.node m.size p r [(leafIndexToPos 1, .leaf 1)]) = some true := by
   decide
+
+/-- **Completeness of `gen_proof` + `MerkleProof::verify`** (no assumption on `merge` at all — in
+particular no injectivity). Push any leaf list `leaves` from scratch over *any* store content `s0`
+(stale nodes of abandoned branches included). For every non-empty set of leaves of that MMR — given
+as claims `(leaf index, value)` with `leaves[index] = value`, listed by increasing position, which
+is the canonical enumeration of a set and what both functions sort their input into — the model of
+`MMR::gen_proof` succeeds, and the model of `MerkleProof::verify` (`calculate_root`, multi-leaf,
+with its queue loops, the bagging of the right-hand peaks and all its error exits) accepts the
+produced proof against `get_root`, which is the chain root `bagD (specD leaves)` of the leaf list.
+So every proof the light-client server can generate for main-chain blocks verifies against the
+root committed by the tip, after any reorganisation history of the store.
+
+Not covered by the statement: request lists that are unsorted or contain duplicates (both
+functions first sort and de-duplicate; that prelude is only exercised by the correspondence
+streams). -/
+theorem proof_complete [DecidableEq α] (merge : α → α → α) (s0 : Store α) (leaves : List α)
+    (claims : List (Nat × α)) (hne : claims ≠ [])
+    (hcl : ∀ c ∈ claims, leaves[c.1]? = some c.2)
+    (hsorted : (claims.map fun c => leafIndexToPos c.1).Pairwise (· < ·)) :
+    ∃ m root proof, pushAll merge ⟨0, s0⟩ leaves = some m ∧ getRoot merge m = some root ∧
+      bagD merge (specD merge leaves) = some root ∧
+      genProof merge m (claims.map fun c => leafIndexToPos c.1) = some proof ∧
+      verify merge m.size proof root (claims.map fun c => (leafIndexToPos c.1, c.2)) = some true := by
+  obtain ⟨c0, hc0⟩ := List.exists_mem_of_ne_nil claims hne
+  obtain ⟨a0, r0, e0, -⟩ := split_getElem leaves c0.1 c0.2 (hcl c0 hc0)
+  obtain ⟨m, mts, hm, hi, -, -, -⟩ := leaf_facts merge s0 a0 c0.2 r0
+  rw [← e0] at hm
+  -- every claimed leaf is stored at its position, which has height 0 and lies below the size
+  have hfacts : ∀ c ∈ claims, m.store (leafIndexToPos c.1) = some c.2 ∧
+      posHeightInTree (leafIndexToPos c.1) = 0 ∧ leafIndexToPos c.1 < m.size := by
+    intro c hc
+    obtain ⟨a, r, e, hl⟩ := split_getElem leaves c.1 c.2 (hcl c hc)
+    obtain ⟨m', -, hm', -, h1, h2, h3⟩ := leaf_facts merge s0 a c.2 r
+    rw [← e, hm] at hm'
+    have : m = m' := Option.some.inj hm'
+    subst this
+    rw [hl] at h1 h2 h3
+    exact ⟨h1, h2, h3⟩
+  have hL : LOK m.store 0 (claims.map fun c => (leafIndexToPos c.1, c.2)) := by
+    refine ⟨?_, fun _ _ => Nat.zero_le _, ?_, ?_⟩
+    · rw [List.pairwise_map] at hsorted ⊢
+      exact hsorted
+    · intro l hl
+      obtain ⟨c, hc, rfl⟩ := List.mem_map.1 hl
+      exact (hfacts c hc).2.1
+    · intro l hl
+      obtain ⟨c, hc, rfl⟩ := List.mem_map.1 hl
+      exact (hfacts c hc).1
+  obtain ⟨proof, root, hg, hr, hc⟩ := complete_core merge m mts hi _ (by simpa using hne) hL (by
+    intro l hl
+    obtain ⟨c, hc, rfl⟩ := List.mem_map.1 hl
+    exact (hfacts c hc).2.2)
+  have hmap : (claims.map fun c => (leafIndexToPos c.1, c.2)).map (·.1) =
+      claims.map fun c => leafIndexToPos c.1 := by
+    simp [Function.comp_def]
+  rw [hmap] at hg
+  have hlne : leaves ≠ [] := by
+    intro e; have := hcl c0 hc0; rw [e] at this; simp at this
+  obtain ⟨m0, hm0, hr0, -⟩ := root_eq_fold merge s0 leaves hlne
+  rw [hm] at hm0
+  have : m = m0 := Option.some.inj hm0
+  subst this
+  refine ⟨m, root, proof, hm, hr, by rw [← hr0, hr], hg, ?_⟩
+  simp [verify, hc]
+
+/-- non-vacuity: five leaves over a store full of stale nodes, leaves 1 and 4 requested (two
+mountains, one of them a single leaf that is also a peak) -/
+example :
+    let leaves := [Term.leaf 0, .leaf 1, .leaf 2, .leaf 3, .leaf 4]
+    let claims := [(1, Term.leaf 1), (4, Term.leaf 4)]
+    (∀ c ∈ claims, leaves[c.1]? = some c.2) ∧ (claims.map fun c => leafIndexToPos c.1) = [1, 7] ∧
+    ((pushAll Term.node ⟨0, fun p => some (.leaf (900 + p))⟩ leaves).bind fun m =>
+      (genProof Term.node m [1, 7]).bind fun p => (getRoot Term.node m).bind fun r =>
+        verify Term.node m.size p r [(1, .leaf 1), (7, .leaf 4)]) = some true := by
+  decide
+
+/-- `proof_complete` for a set of blocks given by strictly increasing leaf index (= block number),
+as `GetBlocksProof` / `GetLastStateProof` build their position lists: `leaf_index_to_pos` is
+strictly increasing (`leafIndexToPos_strictMono`), so the positions are increasing too. -/
+theorem proof_complete_by_index [DecidableEq α] (merge : α → α → α) (s0 : Store α) (leaves : List α)
+    (claims : List (Nat × α)) (hne : claims ≠ [])
+    (hcl : ∀ c ∈ claims, leaves[c.1]? = some c.2)
+    (hsorted : (claims.map (·.1)).Pairwise (· < ·)) :
+    ∃ m root proof, pushAll merge ⟨0, s0⟩ leaves = some m ∧ getRoot merge m = some root ∧
+      bagD merge (specD merge leaves) = some root ∧
+      genProof merge m (claims.map fun c => leafIndexToPos c.1) = some proof ∧
+      verify merge m.size proof root (claims.map fun c => (leafIndexToPos c.1, c.2)) = some true := by
+  refine proof_complete merge s0 leaves claims hne hcl ?_
+  rw [List.pairwise_map] at hsorted ⊢
+  exact hsorted.imp fun h => leafIndexToPos_strictMono h
+
+example : (([(0, 'a'), (3, 'b'), (4, 'c')] : List (Nat × Char)).map (·.1)).Pairwise (· < ·) := by decide
 
 /-! ## block filter -/
 
